@@ -150,6 +150,8 @@ func childMain(args []string) int {
 		s = &filterSaver{}
 	case "filterfail":
 		s = &filterFailSaver{}
+	case "filterlong":
+		s = &filterLongSaver{}
 	case "seturl":
 		s = &setURLSaver{}
 	case "seturlfail":
@@ -554,6 +556,22 @@ func (s *filterFailSaver) save(gen, size int, calib string) error {
 		// Reported by the parent: the destination differs from the old version.
 		return nil
 	}
+	return nil
+}
+
+// filterLongSaver: save 1 is a refresh whose new version holds, after some
+// rules, a line longer than the parser accepts (64 KiB): the refresh fails and
+// the stored list must stay the previous version; save 2 succeeds.
+type filterLongSaver struct{ filterSaver }
+
+func (s *filterLongSaver) save(gen, size int, calib string) error {
+	if gen != 1 {
+		return s.filterSaver.save(gen, size, calib)
+	}
+	body := filterBody(gen, size)
+	body = append(body, []byte("||before-the-long-line.c14.example^\n"+strings.Repeat("z", 70000)+"\n||after-the-long-line.c14.example^\n")...)
+	s.tr.body = body
+	_, _, _ = s.d.VerifC14Refresh()
 	return nil
 }
 
